@@ -152,14 +152,14 @@ Definition ext_b (f f' : file) : bool :=
 
 Definition fs_leb (fs fs' : fsT) : bool :=
   forallb (fun kf =>
-    match lookup fs' (fst kf) with
-    | Some f' => ext_b (snd kf) f'
-    | None =>
-        match fst (fst kf) with
+    (match lookup fs' (fst kf) with
+     | Some f' => ext_b (snd kf) f'
+     | None => false
+     end)
+    || (match fst (fst kf) with
         | DWork => existsb (fun kf' => dir_eqb (fst (fst kf')) DOut && ext_b (snd kf) (snd kf')) fs'
         | DOut => false
-        end
-    end) fs.
+        end)) fs.
 
 (* operations that can only add (proofs/FileOSProofs.v, safe_op_le: they never shrink or
    replace anything); the monitor evaluates [fs_leb] only for the others *)
